@@ -95,12 +95,25 @@ def returns(body):
 
 def classify(cls, name, params, const, static, body, known):
     nb = norm(body)
-    rets, _ = returns(body)
     n_ops = (0 if static else 1)
     n_ops += len(re.findall(r"const\s+Manifold\s*&", params))
     vec_op = bool(re.search(r"std::vector<Manifold>", params))
     if n_ops == 0 and not vec_op:
         return "NoOperand"
+    # Leading guards `if (COND) return *this;` of a method whose only object operand is
+    # *this: returning the operand itself forwards its status whatever COND is, so the
+    # guards are dropped and the remainder must be one of the recognised forms.
+    if n_ops == 1 and not static and not vec_op:
+        stripped = False
+        while True:
+            m = re.match(r"^if \( ((?:[^()]|\( [^()]* \)|\( \))*) \) return \* this ; ", nb)
+            if not m:
+                break
+            nb = nb[m.end():]
+            stripped = True
+        if stripped:
+            body = nb
+    rets, _ = returns(body)
     # delegate: a single return statement calling another method
     if len(rets) == 1 and re.match(r"^(\{ )?return (Manifold :: )?(\w+) \(", nb.replace("{ ", "", 1) if nb.startswith("{") else nb):
         pass
